@@ -1033,6 +1033,80 @@ theorem virtOn_quirk (numTracks numvoc : Int) (h2 : 0 ≤ numvoc) :
   repeat' split
   all_goals omega
 
+/-! ## field-only operations: `setnna`, `setsmp`, `queuepatch` on a mapped channel -/
+
+theorem setNna_inv {s : VState} (h : VInv s) (chn nna : Int) (q : Bool) : VInv (setNna s chn nna q) := by
+  unfold setNna
+  split
+  · exact h
+  · simp only
+    split
+    · exact h
+    · exact setVoice_same_inv h _ _ rfl rfl
+
+theorem setNna_consts (s : VState) (chn nna : Int) (q : Bool) : SameConsts s (setNna s chn nna q) := by
+  unfold setNna SameConsts
+  split
+  · exact ⟨rfl, rfl, rfl⟩
+  · simp only; split <;> simp
+
+theorem setSmp_inv {s : VState} (h : VInv s) (chn smp : Int) : VInv (setSmp s chn smp) := by
+  unfold setSmp
+  simp only
+  split
+  · exact h
+  · split
+    · exact h
+    · exact setVoice_same_inv h _ _ rfl rfl
+
+theorem setSmp_consts (s : VState) (chn smp : Int) : SameConsts s (setSmp s chn smp) := by
+  unfold setSmp SameConsts
+  simp only
+  split
+  · exact ⟨rfl, rfl, rfl⟩
+  · split <;> simp
+
+theorem queueIns_inv {s : VState} (h : VInv s) (chn ins : Int) : VInv (queueIns s chn ins) := by
+  unfold queueIns
+  split
+  · exact h
+  · simp only
+    split
+    · exact setVoice_same_inv h _ _ rfl rfl
+    · exact h
+
+theorem queueIns_consts (s : VState) (chn ins : Int) : SameConsts s (queueIns s chn ins) := by
+  unfold queueIns SameConsts
+  split
+  · exact ⟨rfl, rfl, rfl⟩
+  · simp only; split <;> simp
+
+/-- the field-only operations do what their names say and nothing else: the voice↔channel maps,
+`virt_used` and the counts are untouched -/
+theorem fieldOps_tables (s : VState) (chn x : Int) (q : Bool) :
+    (setNna s chn x q).chans = s.chans ∧ (setNna s chn x q).virtUsed = s.virtUsed ∧
+    (setSmp s chn x).chans = s.chans ∧ (setSmp s chn x).virtUsed = s.virtUsed ∧
+    (queueIns s chn x).chans = s.chans ∧ (queueIns s chn x).virtUsed = s.virtUsed := by
+  refine ⟨?_, ?_, ?_, ?_, ?_, ?_⟩
+  · unfold setNna; split
+    · rfl
+    · simp only; split <;> simp
+  · unfold setNna; split
+    · rfl
+    · simp only; split <;> simp
+  · unfold setSmp; simp only; split
+    · rfl
+    · split <;> simp
+  · unfold setSmp; simp only; split
+    · rfl
+    · split <;> simp
+  · unfold queueIns; split
+    · rfl
+    · simp only; split <;> simp
+  · unfold queueIns; split
+    · rfl
+    · simp only; split <;> simp
+
 /-! ## steps and runs -/
 
 /-- per-operation preconditions (evaluated by the harness at every spied call) -/
@@ -1043,6 +1117,10 @@ def OpOk (s : VState) : Op → Prop
   | .setVol _ _ _ => True
   | .setPatch c i sm k n d a => SetPatchOk s c i sm k n d a
   | .pastNoteCut _ => True
+  | .pastNoteOther _ _ => True
+  | .setNna _ _ _ => True
+  | .setSmp _ _ => True
+  | .queueIns _ _ => True
 
 theorem step_inv' {s : VState} {op : Op} (h : VInv s) (ok : OpOk s op) :
     VInv (step s op) ∧ SameConsts s (step s op) := by
@@ -1071,6 +1149,10 @@ theorem step_inv' {s : VState} {op : Op} (h : VInv s) (ok : OpOk s op) :
       · simp [SameConsts]
   | setPatch c i sm k n d a => exact setPatch_inv' h c i sm k n d a ok
   | pastNoteCut c => exact pastNoteCut_inv' c _ s _ h
+  | pastNoteOther c a => exact ⟨h, rfl, rfl, rfl⟩
+  | setNna c n q => exact ⟨setNna_inv h c n q, setNna_consts s c n q⟩
+  | setSmp c sm => exact ⟨setSmp_inv h c sm, setSmp_consts s c sm⟩
+  | queueIns c i => exact ⟨queueIns_inv h c i, queueIns_consts s c i⟩
 
 theorem step_inv {s : VState} {op : Op} (h : VInv s) (ok : OpOk s op) : VInv (step s op) :=
   (step_inv' h ok).1
